@@ -17,6 +17,7 @@ func TestMain(m *testing.M) {
 	lab.Quiet()
 	lab.Assume("the reference validity predicate (harness/c18/ref.go) is a faithful reading of README, docs/ and the validator's error texts; it evaluates what the operator wrote, never config.Config")
 	lab.Assume("not generated (docs silent or contradictory): enum case variants and `trace`, explicit empty enum strings, invalid values inside disabled features, enabled features with required fields omitted (covered only through the README corpus item), wrongly typed scalars, paths without a leading slash")
+	lab.Assume("round trip of string values: yaml.v3's node-level reading of the same text (a plain or quoted scalar tagged !!str) is the reference for what the file says; generated secrets carry no white space, generated paths only characters that are legal in a URL path segment as they are (no '{' '}' '%' '#' '?')")
 	lab.Assume("L3: loopback only, free ports substituted, one live httptest backend; 'listener does not answer' is decided after 5 s (>= 1000x a loopback accept) once the proxy port already serves")
 	lab.Main(m, "C18")
 }
